@@ -906,6 +906,12 @@ status_stmt :
     kywd_status kywd_current statement_end
     | kywd_status kywd_obsolete statement_end
     | kywd_status kywd_deprecated statement_end
+    | kywd_status token_string statement_end {
+        if s := tokenString($2); s != "current" && s != "obsolete" && s != "deprecated" {
+            yylex.Error(fmt.Sprintf("unexpected status %s", $2))
+            goto ret1
+        }
+    }
 
 fraction_digits_stmt :
     kywd_fraction_digits int_value statement_end {
@@ -1296,6 +1302,21 @@ ordered_by_stmt :
             goto ret1
         }
     }
+    | kywd_ordered_by token_string statement_end {
+        l := yylex.(*lexer)
+        switch tokenString($2) {
+        case "system":
+            l.builder.OrderedBy(l.stack.peek(), meta.OrderedBySystem)
+        case "user":
+            l.builder.OrderedBy(l.stack.peek(), meta.OrderedByUser)
+        default:
+            yylex.Error(fmt.Sprintf("unexpected ordered-by %s", $2))
+            goto ret1
+        }
+        if chkErr2(l, "ordered-by", $3) {
+            goto ret1
+        }
+    }
 
 key_stmt: 
     kywd_key string_value statement_end {
@@ -1426,7 +1447,7 @@ int_value :
         $$ = int(n)
     }
     | token_string {
-        s := trimQuotes($1)
+        s := tokenString($1)
         n, err := strconv.ParseInt(s, 10, 32)
         if err != nil || n < 0 {
             yylex.Error(fmt.Sprintf("not a valid number for min elements %s", $1))
@@ -1445,7 +1466,7 @@ signed_int_value :
         $$ = int(n)
     }
     | token_string {
-        s := trimQuotes($1)
+        s := tokenString($1)
         n, err := strconv.ParseInt(s, 10, 32)
         if err != nil {
             yylex.Error(fmt.Sprintf("not a valid number %s", $1))
@@ -1457,6 +1478,17 @@ signed_int_value :
 bool_value :
     kywd_true {$$ = true} 
     | kywd_false {$$ = false}
+    | token_string {
+        switch tokenString($1) {
+        case "true":
+            $$ = true
+        case "false":
+            $$ = false
+        default:
+            yylex.Error(fmt.Sprintf("expecting true or false, not %s", $1))
+            goto ret1
+        }
+    }
 
 config_stmt : 
     kywd_config bool_value statement_end {
